@@ -1,6 +1,8 @@
 (* C19 - Opening arbitrary bytes as a table never reads outside the file *)
 From Coq Require Import NArith List Lia.
 From Mtbl Require Import gen.Consts model.Bytes model.Writer spec.Parse model.Reader proofs.OpenProofs.
+(* source ties: the statements of the C functions the model follows (gen/Ties.v is regenerated from /repo on every run) *)
+From Mtbl Require props.Ties_C19.
 Local Open Scope N_scope.
 
 (* T19a: for EVERY byte string f and either setting of verify_checksums, the model
